@@ -165,6 +165,14 @@ for n, t, to, mem in ((2, "quick", 900, 20), (3, "quick", 900, 20), (4, "quick",
 H("data_types", "c10_auth_helpers_n3", what="xor_keys == XOR of keys; macs() in order; xor_key(i,d) changes exactly key i", bounds="n=3, i in 0..=3", functions=["Auth::xor_keys", "Auth::macs", "Auth::xor_key"], panic_prop="C10")
 H("data_types", "c10_typed_ops", what="typed XOR/AND operators and the MAC-check expression mac != key ^ (bit & delta)", bounds="full width", functions=["data_types operator impls"], panic_prop="C10")
 H("faand", "c10_bucket_size_table", what="bucket_size == 5 below 3100, 4 from 3100, 3 from 280000", bounds="all usize", functions=["mpc::faand::bucket_size"], panic_prop="C10")
+H("faand", "c04_beaver_check_n4", needs_segment=["beaver_check"],
+  what="Beaver opening with three peers: Ok => every peer's d and e MACs verify; opened d,e == XOR of ALL four contributions", bounds="n=4, own index 0, one triple", functions=["mpc::faand::beaver_aand (segment after scatter, MAC check + accumulation)"], panic_prop="C08")
+H("faand", "c10_fashare_round_honest_n3", timeout=1200, est_gb=8, needs_segment=["fashare_3a", "fashare_3c", "fashare_3d"],
+  what="aShare consistency round end to end for honest parties: steps 3a (all parties), 3c and 3d (party 0) composed; honest openings pass the MAC-sum check, i.e. the decommitment byte layout agrees between producer and consumer for every pair", bounds="n=3, rho lowered to 2, all bits/keys/global keys symbolic", functions=["mpc::faand::fashare (steps 3a, 3c, 3d segments)"], panic_prop="C10", stubs=["commit -> constant, open_commitment -> arbitrary verdict"])
+H("faand", "c10_fabitn_result_n3", needs_segment=["fabitn_result"],
+  what="aBit result assembly: share l == (x[l], (MAC_k[l], key_k[l]) for every peer k), own slot zero, sacrificed objects cut off", bounds="n=3, own index 1, l=2 of 3 generated bits, all values symbolic", functions=["mpc::faand::fabitn (step 4 segment)"], panic_prop="C10")
+H("faand", "c10_faand_combine_lengths", needs_segment=["faand_combine"],
+  what="aAND after the d-value round: number of d-value vectors must equal the number of buckets; one triple per bucket", bounds="n=2, 2 buckets of 2, 0..=3 d-value vectors", functions=["mpc::faand::faand (segment after check_dvalue)"], panic_prop="C10")
 H("faand", "c10_combine_two_n2", timeout=1200, est_gb=7, what="combine_two_leaky_ands as inductive step: valid triple + valid leaky triple + honest d => valid triple with AND relation and y == y1", bounds="n=2, all bits/MACs/keys/deltas symbolic", functions=["mpc::faand::combine_two_leaky_ands"], panic_prop="C10")
 H("faand", "c10_combine_two_n3", tier="thorough", timeout=2400, mem_gb=30, est_gb=14, what="same, n=3", bounds="n=3", functions=["mpc::faand::combine_two_leaky_ands"], panic_prop="C10")
 H("faand", "c10_combine_bucket_fold_b3", what="combine_bucket fold order (d_vec[k-1] with element k); empty bucket => Err", bounds="n=2, bucket of 3", functions=["mpc::faand::combine_bucket", "mpc::faand::combine_two_leaky_ands"], panic_prop="C10")
@@ -238,6 +246,7 @@ variant("c07_fashare_3c_n2", "__c04")
 variant("c07_fashare_3c_n2", "__c10")
 variant("c04_beaver_check_n2", "__c10")
 variant("c04_bcast_verify_tail_n3", "__c03")
+variant("c04_beaver_check_n4", "__c10")
 
 
 def hs(*names):
@@ -291,7 +300,7 @@ PROPS["C04"] = dict(
     outside="n=2; orderings over message histories and coin-toss reuse are outside the technique's reach.",
     assumptions=[FMT, TRACING, SEG, N2, "open_commitment(..) -> arbitrary bool inside the fashare_3d segment (textual substitution)", "RHO shadowed by a local const 2 inside the fashare segments"],
     segments=["check_dvalue_tail", "fashare_3c", "fashare_3d", "beaver_check", "bcast_verify_tail", "flaand_tail", "fabitn_check", "kos_check", "shared_rng_open"],
-    harnesses=hs("c04_check_dvalue_tail_n2_b3", "c04_check_dvalue_tail_n3_b2", "c07_fashare_3c_n2__c04", "c04_fashare_3d_n2", "c04_beaver_check_n2", "c04_bcast_verify_tail_n3", "c04_flaand_tail_n2", "c04_fabitn_check_n2", "c04_kos_check", "c04_shared_rng_open_n2"),
+    harnesses=hs("c04_check_dvalue_tail_n2_b3", "c04_check_dvalue_tail_n3_b2", "c07_fashare_3c_n2__c04", "c04_fashare_3d_n2", "c04_beaver_check_n2", "c04_bcast_verify_tail_n3", "c04_flaand_tail_n2", "c04_fabitn_check_n2", "c04_kos_check", "c04_shared_rng_open_n2", "c04_beaver_check_n4"),
 )
 
 PROPS["C05"] = dict(
@@ -345,8 +354,8 @@ PROPS["C10"] = dict(
     explanation="Kani/CBMC on data_types operators, combine_two_leaky_ands, combine_bucket, bucket_size, chunked_update_with_rbits, beaver tail segment.",
     outside="n <= 3 (4 for XOR); stated length classes of chunked_update_with_rbits.",
     assumptions=[FMT, TRACING, "pairwise IT-MAC relation assumed on inputs (representation invariant)", SEG],
-    segments=["beaver_check", "beaver_final", "check_dvalue_tail", "garbler_rows", "evaluator_rows", "garbler_row_labels"],
-    harnesses=by_prefix("c10_") + hs("c04_beaver_check_n2__c10", "c04_check_dvalue_tail_n2_b3__c10", "c07_fashare_3c_n2__c10", "c01_and_gate_table_n2__c10"),
+    segments=["beaver_check", "beaver_final", "check_dvalue_tail", "garbler_rows", "evaluator_rows", "garbler_row_labels", "fabitn_result", "faand_combine", "fashare_3a", "fashare_3c", "fashare_3d"],
+    harnesses=by_prefix("c10_") + hs("c04_beaver_check_n4__c10", "c04_beaver_check_n2__c10", "c04_check_dvalue_tail_n2_b3__c10", "c07_fashare_3c_n2__c10", "c01_and_gate_table_n2__c10"),
 )
 
 PROPS["C11"] = dict(
